@@ -1151,11 +1151,6 @@ Definition res_ok (c : cache) : Prop :=
 
 Definition cinv (c : cache) : Prop := cas_sound H (c_cas c) /\ res_ok c.
 
-Definition nowk (ws : list (str * pstate)) : Prop := forall p, ws_get p ws <> PWrongKind.
-
-Lemma nowk_le ws ws' : wk_le ws' ws -> nowk ws -> nowk ws'.
-Proof. intros Hle Hn p Hp. apply (Hn p). apply Hle, Hp. Qed.
-
 Lemma NoDup_map_neq {A B} (f : A -> B) (l : list A) x y :
   NoDup (map f l) -> In x l -> In y l -> x <> y -> f x <> f y.
 Proof.
@@ -1217,15 +1212,14 @@ Proof.
   eapply NoDup_map_inv. exact Hnd.
 Qed.
 
-(* when a restore is bound to succeed *)
-Lemma restorable_ok c t ws k r :
-  cinv c -> nowk ws -> rlookup k (c_results c) = Some r -> outputs_match t r = true ->
-  restorable c t ws (r_outs r).
+(* when a restore is bound to succeed: the cache holds every recorded blob (whatever sits at the paths) *)
+Lemma restorable_ok c t k r :
+  cinv c -> rlookup k (c_results c) = Some r -> outputs_match t r = true ->
+  restorable c t (r_outs r).
 Proof.
-  intros [_ Hres] Hwk Hr Hm def dg Hin.
-  destruct (outputs_match_find t r def dg Hm Hin) as [o Ho]. exists o. split; [exact Ho|]. split.
-  - destruct (Hres k r def dg Hr Hin) as (o2 & x2 & _ & _ & Hc). rewrite Hc. discriminate.
-  - intros _. apply Hwk.
+  intros [_ Hres] Hr Hm def dg Hin.
+  destruct (outputs_match_find t r def dg Hm Hin) as [o Ho]. exists o. split; [exact Ho|].
+  destruct (Hres k r def dg Hr Hin) as (o2 & x2 & _ & _ & Hc). rewrite Hc. discriminate.
 Qed.
 
 (* ------------------------------------------------------------------ CAS after OnTargetComplete *)
@@ -1344,7 +1338,7 @@ Definition cur (b : bstate) (j : nat) (tj : tdef) : Prop :=
 
 (* mode all: every successful target is restored and current *)
 Definition coreA (b : bstate) : Prop :=
-  cinv (b_cache b) /\ nowk (w_ws (b_world b)) /\ rt_len b = length (s_nodes s) /\
+  cinv (b_cache b) /\ rt_len b = length (s_nodes s) /\
   (forall j tj, node_at s j = Some (NTarget tj) -> dep_ok b j = true ->
      rt_loaded (get_rt b j) = true /\ cur b j tj).
 
@@ -1361,7 +1355,6 @@ Definition sim (bA bM : bstate) : Prop :=
   (forall j, rt_key (get_rt bA j) = rt_key (get_rt bM j) /\
              rt_ohash (get_rt bA j) = rt_ohash (get_rt bM j) /\
              rt_status (get_rt bA j) = rt_status (get_rt bM j)) /\
-  nowk (w_ws (b_world bM)) /\
   (forall j tj, node_at s j = Some (NTarget tj) -> rt_loaded (get_rt bM j) = true ->
      dep_ok bM j = true /\
      forall o, In o (td_outs tj) ->
@@ -1395,15 +1388,15 @@ Lemma load_dep_M bA bM j tj :
     load_outputs H j tj r bM = (true, b1) /\ sim bA b1 /\ rt_loaded (get_rt b1 j) = true /\
     (forall i, rt_loaded (get_rt bM i) = true -> rt_loaded (get_rt b1 i) = true).
 Proof.
-  intros (Hci & HwkA & HlenA & Hgood) HS Hn Hok.
-  pose proof HS as (Sc & Sx & Ss & Se & Sl & Srt & SwkM & Sld).
+  intros (Hci & HlenA & Hgood) HS Hn Hok.
+  pose proof HS as (Sc & Sx & Ss & Se & Sl & Srt & Sld).
   destruct (Hgood j tj Hn Hok) as [HldA (key & r & Hk & Hr & Hoh & Hm & Hcont)].
   exists key, r. rewrite <- (proj1 (Srt j)), <- Sc.
   destruct (rt_loaded (get_rt bM j)) eqn:El.
   { exists bM. split; [exact Hk|]. split; [exact Hr|]. unfold load_outputs. rewrite El. auto. }
   assert (HciM : cinv (b_cache bM)) by (rewrite <- Sc; exact Hci).
   assert (HrM : rlookup key (c_results (b_cache bM)) = Some r) by (rewrite <- Sc; exact Hr).
-  pose proof (load_outputs_ok H j tj r bM El Hm (restorable_ok _ _ _ _ _ HciM SwkM HrM Hm)) as Hfst.
+  pose proof (load_outputs_ok H j tj r bM El Hm (restorable_ok _ _ _ _ HciM HrM Hm)) as Hfst.
   destruct (load_outputs H j tj r bM) as [ok b1] eqn:E. cbn [fst] in Hfst. subst ok.
   exists b1. split; [exact Hk|]. split; [exact Hr|]. split; [reflexivity|].
   pose proof E as E'. apply load_outputs_cases in E' as [(Hf & _)|(_ & ws' & Ela & Hb)];
@@ -1421,12 +1414,9 @@ Proof.
       rewrite Hoth by exact Hne. exact Hi'. }
   split; [subst b1; exact Sc|]. split; [subst b1; exact Sx|]. split; [subst b1; exact Ss|].
   split; [subst b1; exact Se|]. split; [subst b1; rewrite rt_len_set_rt, rt_len_set_world; exact Sl|].
-  split; [|split].
+  split.
   - intro i. destruct (Nat.eq_dec i j) as [->|Hi]; [|rewrite Hoth by exact Hi; apply Srt].
     rewrite Hsame. cbn [rt_key rt_ohash rt_status]. destruct (Srt j) as (K1 & _ & K3). auto.
-  - rewrite Hws. eapply nowk_le; [|exact SwkM].
-    pose proof (load_all_wk H (b_cache bM) tj (r_outs r) (w_ws (b_world bM))) as Hle.
-    rewrite Ela in Hle. exact Hle.
   - intros i ti Hni Hli. destruct (Nat.eq_dec i j) as [->|Hi].
     + rewrite Hni in Hn. inversion Hn; subst ti. split.
       * unfold dep_ok. rewrite Hsame. cbn [rt_status]. rewrite <- (proj2 (proj2 (Srt j))). exact Hok.
@@ -1553,7 +1543,7 @@ Qed.
 
 Lemma coreA_step k t key b b' :
   node_at s k = Some (NTarget t) -> coreA b ->
-  cinv (b_cache b') -> nowk (w_ws (b_world b')) -> rt_len b' = rt_len b ->
+  cinv (b_cache b') -> rt_len b' = rt_len b ->
   (forall j, j <> k -> get_rt b' j = get_rt b j) ->
   (forall p, not_own t p -> ws_get p (w_ws (b_world b')) = ws_get p (w_ws (b_world b))) ->
   (forall key', key' <> key ->
@@ -1562,8 +1552,8 @@ Lemma coreA_step k t key b b' :
   (dep_ok b' k = true -> rt_loaded (get_rt b' k) = true /\ cur b' k t) ->
   coreA b'.
 Proof.
-  intros Hn (Hci & Hwk & Hlen & Hgood) Hci' Hwk' Hlen' Hoth Hws Hres Hfresh Hk.
-  split; [exact Hci'|]. split; [exact Hwk'|]. split; [congruence|].
+  intros Hn (Hci & Hlen & Hgood) Hci' Hlen' Hoth Hws Hres Hfresh Hk.
+  split; [exact Hci'|]. split; [congruence|].
   intros j tj Hnj Hok. destruct (Nat.eq_dec j k) as [->|Hne].
   - rewrite Hn in Hnj. inversion Hnj; subst tj. apply Hk, Hok.
   - unfold dep_ok in Hok. rewrite (Hoth j Hne) in Hok. destruct (Hgood j tj Hnj Hok) as [Hl Hc].
@@ -1575,7 +1565,7 @@ Qed.
 
 Lemma coreA_pt_b0 k key b : dep_ok b k = false -> coreA b -> coreA (pt_b0 k key b).
 Proof.
-  intros Hk (Hci & Hwk & Hlen & Hgood). split; [exact Hci|]. split; [exact Hwk|].
+  intros Hk (Hci & Hlen & Hgood). split; [exact Hci|].
   split; [rewrite pt_b0_len; exact Hlen|].
   intros j tj Hnj Hok. destruct (Nat.eq_dec j k) as [->|Hne].
   - unfold dep_ok, pt_b0 in Hok. rewrite (get_rt_set_rt_field rt_status) in Hok by reflexivity.
@@ -1598,7 +1588,7 @@ Lemma hitA k t key res b b1 :
   (forall j, j <> k -> get_rt b1 j = get_rt b j) /\
   (forall p, not_own t p -> ws_get p (w_ws (b_world b1)) = ws_get p (w_ws (b_world b))).
 Proof.
-  intros Hn HC Hk0 Hfresh Hr E. pose proof HC as (Hci & Hwk & Hlen & Hgood).
+  intros Hn HC Hk0 Hfresh Hr E. pose proof HC as (Hci & Hlen & Hgood).
   assert (Hk : k < rt_len b) by (rewrite Hlen; eapply node_at_lt; eauto).
   set (b0 := pt_b0 k key b) in *.
   assert (H0 : get_rt b0 k = mkRt (Some key) None false TNone).
@@ -1620,9 +1610,6 @@ Proof.
   split; [|subst b1; repeat split; auto].
   apply (coreA_step k t key b); auto.
   - rewrite b_cache_mark. subst b1. exact Hci.
-  - rewrite b_world_mark, Hws. eapply nowk_le; [|exact Hwk].
-    pose proof (load_all_wk H (b_cache b0) t (r_outs res) (w_ws (b_world b0))) as Hle.
-    rewrite Ela in Hle. exact Hle.
   - rewrite rt_len_mark. exact Hlen1.
   - intros j Hj. rewrite get_rt_mark_other by auto. apply Hoth, Hj.
   - rewrite b_cache_mark. subst b1. reflexivity.
@@ -1720,11 +1707,10 @@ Lemma execA cfg k t key tn b ok b3 :
   execute H cfg s k t key tn (pt_b0 k key b) = (ok, b3) ->
   coreA (mark b3 k (if ok then TExecuted else TFailed)).
 Proof.
-  intros Hcc Hn HC Hk0 Hfresh E. pose proof HC as (Hci & Hwk & Hlen & Hgood).
+  intros Hcc Hn HC Hk0 Hfresh E. pose proof HC as (Hci & Hlen & Hgood).
   destruct (plain_target s k t Hpl Hn) as [Hcmd Hnc].
   assert (Hk : k < rt_len (pt_b0 k key b)) by (rewrite pt_b0_len, Hlen; eapply node_at_lt; eauto).
   destruct (execute_shape H cfg s k t key tn _ ok b3 Hk E) as (Hoth & Hws & Hf & Ht).
-  pose proof (Build_c02_proofs.execute_frame H _ _ _ _ _ _ _ _ _ E) as (_ & _ & Hle & _).
   pose proof (execute_len _ _ _ _ _ _ _ _ E) as Hl3. rewrite pt_b0_len in Hl3.
   apply (coreA_step k t key b); auto.
   - (* cache *)
@@ -1737,7 +1723,6 @@ Proof.
     intros e He. destruct (present_digests_struct t _ _ _ Epd e He) as (o & x & -> & Ho & Hx).
     exists o, x. split; [reflexivity|].
     apply (run_command_T t _ w' (own_nodup k t Hn) Er Eck (proj2 (present_digests_spec H t _ _ _ Epd)) o x Ho Hx).
-  - rewrite b_world_mark. eapply nowk_le; [exact Hle | exact Hwk].
   - rewrite rt_len_mark. exact Hl3.
   - intros j Hj. rewrite get_rt_mark_other, Hoth by auto. apply pt_b0_other, Hj.
   - intros key' Hk'. rewrite b_cache_mark. destruct ok.
@@ -1776,7 +1761,6 @@ Lemma sim_step k t bA bM bA' bM' :
   (forall j, j <> k -> get_rt bM' j = get_rt bM j) ->
   (rt_key (get_rt bA' k) = rt_key (get_rt bM' k) /\ rt_ohash (get_rt bA' k) = rt_ohash (get_rt bM' k) /\
    rt_status (get_rt bA' k) = rt_status (get_rt bM' k)) ->
-  nowk (w_ws (b_world bM')) ->
   (forall p, not_own t p -> ws_get p (w_ws (b_world bA')) = ws_get p (w_ws (b_world bA))) ->
   (forall p, not_own t p -> ws_get p (w_ws (b_world bM')) = ws_get p (w_ws (b_world bM))) ->
   (rt_loaded (get_rt bM' k) = true -> dep_ok bM' k = true /\
@@ -1784,9 +1768,9 @@ Lemma sim_step k t bA bM bA' bM' :
        ws_get (out_path t o) (w_ws (b_world bM')) = ws_get (out_path t o) (w_ws (b_world bA'))) ->
   sim bA' bM'.
 Proof.
-  intros Hn (Sc & Sx & Ss & Se & Sl & Srt & Swk & Sld) Hc Hx Hs He Hl HoA HoM Hk Hwk HwA HwM Hkl.
+  intros Hn (Sc & Sx & Ss & Se & Sl & Srt & Sld) Hc Hx Hs He Hl HoA HoM Hk HwA HwM Hkl.
   split; [exact Hc|]. split; [exact Hx|]. split; [exact Hs|]. split; [exact He|]. split; [exact Hl|].
-  split; [|split; [exact Hwk|]].
+  split.
   - intro j. destruct (Nat.eq_dec j k) as [->|Hne]; [exact Hk|]. rewrite HoA, HoM by exact Hne. apply Srt.
   - intros j tj Hnj Hlj. destruct (Nat.eq_dec j k) as [->|Hne].
     + rewrite Hn in Hnj. inversion Hnj; subst tj. apply Hkl, Hlj.
@@ -1814,7 +1798,7 @@ Qed.
 Lemma coreA_mark k st b :
   (st_ok st = true -> forall t, node_at s k <> Some (NTarget t)) -> coreA b -> coreA (mark b k st).
 Proof.
-  intros Hst (Hci & Hwk & Hlen & Hgood). split; [exact Hci|]. split; [exact Hwk|].
+  intros Hst (Hci & Hlen & Hgood). split; [exact Hci|].
   split; [rewrite rt_len_mark; exact Hlen|].
   intros j tj Hnj Hok. destruct (Nat.eq_dec j k) as [->|Hne].
   - exfalso. unfold dep_ok in Hok.
@@ -1827,9 +1811,9 @@ Qed.
 
 Lemma sim_mark k st bA bM : sim bA bM -> dep_ok bA k = false -> sim (mark bA k st) (mark bM k st).
 Proof.
-  intros HS Hk. pose proof HS as (Sc & Sx & Ss & Se & Sl & Srt & Swk & Sld).
+  intros HS Hk. pose proof HS as (Sc & Sx & Ss & Se & Sl & Srt & Sld).
   split; [exact Sc|]. split; [exact Sx|]. split; [exact Ss|]. split; [exact Se|].
-  split; [rewrite !rt_len_mark; exact Sl|]. split; [|split; [exact Swk|]].
+  split; [rewrite !rt_len_mark; exact Sl|]. split.
   - intro j. rewrite !rt_key_mark, !rt_ohash_mark. destruct (Srt j) as (K1 & K2 & K3).
     split; [exact K1|]. split; [exact K2|].
     destruct (Nat.eq_dec j k) as [->|Hne]; [|rewrite !get_rt_mark_other by auto; exact K3].
@@ -1867,7 +1851,7 @@ Lemma sim_k_unloaded k t bA bM :
   node_at s k = Some (NTarget t) -> sim bA bM -> dep_ok bA k = false -> rt_loaded (get_rt bM k) = false.
 Proof.
   intros Hn HS Hk. destruct (rt_loaded (get_rt bM k)) eqn:El; [|reflexivity].
-  pose proof HS as (_ & _ & _ & _ & _ & _ & _ & Sld). destruct (Sld k t Hn El) as [Hd _].
+  pose proof HS as (_ & _ & _ & _ & _ & _ & Sld). destruct (Sld k t Hn El) as [Hd _].
   rewrite (sim_dep_ok bA bM k HS) in Hd. congruence.
 Qed.
 
@@ -1882,8 +1866,8 @@ Lemma hit_step c0 k t key res bA bM :
     sim (mark b1 k THit) (mark (set_ohash (pt_b0 k key bM) k (r_outhash res)) k THit).
 Proof.
   intros Hn HG HS Hfresh Hfits Hr. pose proof HG as (HC & Hz & Horig).
-  pose proof HC as (Hci & Hwk & Hlen & Hgood).
-  pose proof HS as (Sc & Sx & Ss & Se & Sl & Srt & Swk & Sld).
+  pose proof HC as (Hci & Hlen & Hgood).
+  pose proof HS as (Sc & Sx & Ss & Se & Sl & Srt & Sld).
   pose proof (Hz k (le_n _)) as Hk0.
   assert (HkA : k < rt_len bA) by (rewrite Hlen; eapply node_at_lt; eauto).
   assert (HkM : k < rt_len bM) by (rewrite <- Sl; exact HkA).
@@ -1893,7 +1877,7 @@ Proof.
     apply Hfits. rewrite <- O. exact Hr. }
   assert (Hl0 : rt_loaded (get_rt (pt_b0 k key bA) k) = false) by (rewrite pt_b0_loaded, Hk0; reflexivity).
   pose proof (load_outputs_ok H k t res (pt_b0 k key bA) Hl0 Hm
-                (restorable_ok (b_cache bA) t (w_ws (b_world bA)) key res Hci Hwk Hr Hm)) as Hfst.
+                (restorable_ok (b_cache bA) t key res Hci Hr Hm)) as Hfst.
   destruct (load_outputs H k t res (pt_b0 k key bA)) as [ok b1] eqn:E. cbn [fst] in Hfst. subst ok.
   exists b1. split; [reflexivity|].
   destruct (hitA k t key res bA b1 Hn HC Hk0 Hfresh Hr E) as (HC1 & Fc & Fx & Fs & Fe & Fl & Fk & Foth & Fws).
@@ -1948,7 +1932,7 @@ Lemma sim_pt_b0 k t key bA bM :
   node_at s k = Some (NTarget t) -> sim bA bM -> dep_ok bA k = false -> k < rt_len bA ->
   sim (pt_b0 k key bA) (pt_b0 k key bM).
 Proof.
-  intros Hn HS Hdk HkA. pose proof HS as (Sc & Sx & Ss & Se & Sl & Srt & Swk & Sld).
+  intros Hn HS Hdk HkA. pose proof HS as (Sc & Sx & Ss & Se & Sl & Srt & Sld).
   apply (sim_step k t bA bM); auto.
   - rewrite !pt_b0_len. exact Sl.
   - intros j Hj. apply pt_b0_other, Hj.
@@ -1970,7 +1954,7 @@ Lemma miss_deps k t key bA bM :
     dep_parts s (w_ws (b_world (pt_b0 k key bA))) (td_deps t) =
     dep_parts s (w_ws (b_world bM2)) (td_deps t).
 Proof.
-  intros Hn Hshort HC Hk0 HS Hcl Hall. pose proof HC as (_ & _ & Hlen & _).
+  intros Hn Hshort HC Hk0 HS Hcl Hall. pose proof HC as (_ & Hlen & _).
   assert (HkA : k < rt_len bA) by (rewrite Hlen; eapply node_at_lt; eauto).
   assert (Hdk : dep_ok bA k = false) by (unfold dep_ok; rewrite Hk0; reflexivity).
   assert (Hdeps : forall d j tj, In d (td_deps t) -> resolve s d = Some (j, tj) ->
@@ -1984,7 +1968,7 @@ Proof.
     as (bM2 & E2 & HS2 & _ & Hall2).
   exists bM2. split; [exact E2|]. split; [exact HS2|].
   apply dep_parts_ext. intros d j tj o Hd Hres Ho.
-  pose proof HS2 as (_ & _ & _ & _ & _ & _ & _ & Sld2).
+  pose proof HS2 as (_ & _ & _ & _ & _ & _ & Sld2).
   destruct (Sld2 j tj (resolve_target _ _ _ _ Hres) (Hall2 d j tj Hd Hres)) as [_ Hw].
   symmetry. apply Hw, Ho.
 Qed.
@@ -2002,8 +1986,8 @@ Lemma exec_step c0 k t key tn bA bM2 okA bA3 okM bM3 :
   sim (mark bA3 k (if okA then TExecuted else TFailed)) (mark bM3 k (if okA then TExecuted else TFailed)).
 Proof.
   intros Hn HG Hfresh HS2 Hdp EA EM. pose proof HG as (HC & Hz & Horig).
-  pose proof HC as (Hci & Hwk & Hlen & Hgood).
-  pose proof HS2 as (Sc & Sx & Ss & Se & Sl & Srt & Swk & Sld).
+  pose proof HC as (Hci & Hlen & Hgood).
+  pose proof HS2 as (Sc & Sx & Ss & Se & Sl & Srt & Sld).
   pose proof (Hz k (le_n _)) as Hk0.
   destruct (plain_target s k t Hpl Hn) as [Hcmd _].
   set (b0A := pt_b0 k key bA) in *.
@@ -2041,8 +2025,6 @@ Proof.
       rewrite !rt_status_mark_same; [reflexivity | |].
       * rewrite (execute_len _ _ _ _ _ _ _ _ EM). exact HkM.
       * rewrite (execute_len _ _ _ _ _ _ _ _ EA). exact HkA.
-    + rewrite b_world_mark. eapply nowk_le; [|exact Swk].
-      apply (Build_c02_proofs.execute_frame H _ _ _ _ _ _ _ _ _ EM).
     + intro Hl. rewrite rt_loaded_mark, LdM in Hl.
       rewrite (sim_k_unloaded k t b0A bM2 Hn HS2 Hdk), orb_false_r in Hl. subst okA. split.
       * unfold dep_ok. rewrite rt_status_mark_same; [reflexivity|].
@@ -2119,9 +2101,9 @@ Lemma sim_stop bA bM :
   sim (mkB (b_world bA) (b_cache bA) (b_rt bA) (b_exec bA) true)
       (mkB (b_world bM) (b_cache bM) (b_rt bM) (b_exec bM) true).
 Proof.
-  intros (S1 & S2 & S3 & S4 & S5 & S6 & S7 & S8).
+  intros (S1 & S2 & S3 & S4 & S5 & S6 & S8).
   split; [exact S1|]. split; [exact S2|]. split; [reflexivity|]. split; [exact S4|].
-  split; [exact S5|]. split; [exact S6|]. split; [exact S7 | exact S8].
+  split; [exact S5|]. split; [exact S6 | exact S8].
 Qed.
 
 Lemma pn_step c0 sel k bA bM :
@@ -2156,31 +2138,31 @@ Definition build_guard (c0 : cache) (roots : list nat) (wA : world) : Prop :=
 Lemma get_rt_init w c j : get_rt (build_init s w c) j = rt0.
 Proof. unfold get_rt, build_init. cbn [b_rt]. apply nth_repeat. Qed.
 
-Lemma init_good c0 wA : cinv c0 -> nowk (w_ws wA) -> goodA c0 0 (build_init s wA c0).
+Lemma init_good c0 wA : cinv c0 -> goodA c0 0 (build_init s wA c0).
 Proof.
-  intros Hci Hwk. split; [|split].
-  - split; [exact Hci|]. split; [exact Hwk|]. split; [apply repeat_length|].
+  intros Hci. split; [|split].
+  - split; [exact Hci|]. split; [apply repeat_length|].
     intros j tj _ Hok. unfold dep_ok in Hok. rewrite get_rt_init in Hok. discriminate.
   - intros j _. apply get_rt_init.
   - intro key. left. reflexivity.
 Qed.
 
 Lemma init_sim c0 wA wM :
-  w_ext wA = w_ext wM -> nowk (w_ws wM) -> sim (build_init s wA c0) (build_init s wM c0).
+  w_ext wA = w_ext wM -> sim (build_init s wA c0) (build_init s wM c0).
 Proof.
-  intros He Hwk. split; [reflexivity|]. split; [reflexivity|]. split; [reflexivity|].
-  split; [exact He|]. split; [reflexivity|]. split; [|split; [exact Hwk|]].
+  intros He. split; [reflexivity|]. split; [reflexivity|]. split; [reflexivity|].
+  split; [exact He|]. split; [reflexivity|]. split.
   - intro j. rewrite !get_rt_init. auto.
   - intros j tj _ Hl. rewrite get_rt_init in Hl. discriminate.
 Qed.
 
 Lemma prefix_lockstep c0 roots wA wM :
-  deps_short -> cinv c0 -> nowk (w_ws wA) -> nowk (w_ws wM) -> w_ext wA = w_ext wM ->
+  deps_short -> cinv c0 -> w_ext wA = w_ext wM ->
   build_guard c0 roots wA ->
   forall k, goodA c0 k (build_prefix H cfgA s roots wA c0 k) /\
             sim (build_prefix H cfgA s roots wA c0 k) (build_prefix H cfgM s roots wM c0 k).
 Proof.
-  intros Hshort Hci HwA HwM He Hguard. induction k as [|k [IHg IHs]].
+  intros Hshort Hci He Hguard. induction k as [|k [IHg IHs]].
   - unfold build_prefix. cbn [seq fold_left]. split; [apply init_good | apply init_sim]; assumption.
   - pose proof (build_prefix_closed H cfgA s roots wA c0 k) as Hcl.
     unfold build_prefix in *. rewrite !seq_S, !fold_left_app. cbn [fold_left plus].
@@ -2210,7 +2192,7 @@ Lemma sim_materialised bA bM j tj o :
   exists c, ws_get (out_path tj o) (w_ws (b_world bM)) = PFile c /\
             ws_get (out_path tj o) (w_ws (b_world bA)) = PFile c.
 Proof.
-  intros (_ & _ & _ & Hgood) HS Hn Hl Ho. pose proof HS as (_ & _ & _ & _ & _ & _ & _ & Sld).
+  intros (_ & _ & Hgood) HS Hn Hl Ho. pose proof HS as (_ & _ & _ & _ & _ & _ & Sld).
   destruct (Sld j tj Hn Hl) as [Hd Hw]. rewrite (sim_dep_ok bA bM j HS) in Hd.
   destruct (Hgood j tj Hn Hd) as [_ (key & r & _ & _ & _ & Hm & Hc)].
   destruct (outputs_match_entry tj r o Hm Ho) as (dg & Hin & _).
@@ -2218,27 +2200,27 @@ Proof.
 Qed.
 
 Theorem build_lockstep c0 roots wA wM :
-  deps_short -> cinv c0 -> nowk (w_ws wA) -> nowk (w_ws wM) -> w_ext wA = w_ext wM ->
+  deps_short -> cinv c0 -> w_ext wA = w_ext wM ->
   build_guard c0 roots wA ->
   let rA := build H cfgA s roots wA c0 in
   let rM := build H cfgM s roots wM c0 in
   br_ok rA = br_ok rM /\ br_status rA = br_status rM /\ br_exec rA = br_exec rM /\
   br_cache rA = br_cache rM /\ w_ext (br_world rA) = w_ext (br_world rM) /\
-  cinv (br_cache rA) /\ nowk (w_ws (br_world rA)) /\ nowk (w_ws (br_world rM)) /\
+  cinv (br_cache rA) /\
   (forall j tj o, node_at s j = Some (NTarget tj) ->
      rt_loaded (get_rt (build_prefix H cfgM s roots wM c0 (length (s_nodes s))) j) = true ->
      In o (td_outs tj) ->
      exists c, ws_get (out_path tj o) (w_ws (br_world rM)) = PFile c /\
                ws_get (out_path tj o) (w_ws (br_world rA)) = PFile c).
 Proof.
-  intros Hshort Hci HwA HwM He Hguard rA rM.
-  destruct (prefix_lockstep c0 roots wA wM Hshort Hci HwA HwM He Hguard (length (s_nodes s))) as [HG HS].
+  intros Hshort Hci He Hguard rA rM.
+  destruct (prefix_lockstep c0 roots wA wM Hshort Hci He Hguard (length (s_nodes s))) as [HG HS].
   unfold rA, rM. rewrite !build_prefix_result. unfold result_of. cbn [br_ok br_status br_exec br_cache br_world].
-  pose proof HS as (Sc & Sx & _ & Se & _ & _ & Swk & _). pose proof HG as (HC & _).
-  pose proof HC as (Hci' & Hwk' & _).
+  pose proof HS as (Sc & Sx & _ & Se & _). pose proof HG as (HC & _).
+  pose proof HC as (Hci' & _).
   rewrite (sim_sts _ _ HS).
   split; [reflexivity|]. split; [reflexivity|]. split; [exact Sx|]. split; [exact Sc|].
-  split; [exact Se|]. split; [exact Hci'|]. split; [exact Hwk'|]. split; [exact Swk|].
+  split; [exact Se|]. split; [exact Hci'|].
   intros j tj o Hn Hl Ho. apply (sim_materialised _ _ j tj o HC HS Hn Hl Ho).
 Qed.
 
@@ -2261,7 +2243,7 @@ Definition log_rel (rA rM : build_result) : Prop :=
 Definition hsim (yA yM : sys) : Prop :=
   sy_src yA = sy_src yM /\ sy_cache yA = sy_cache yM /\
   w_ext (sy_world yA) = w_ext (sy_world yM) /\
-  cinv (sy_cache yA) /\ nowk (w_ws (sy_world yA)) /\ nowk (w_ws (sy_world yM)) /\
+  cinv (sy_cache yA) /\
   Forall2 log_rel (sy_log yA) (sy_log yM).
 
 (* guards of one operation, evaluated on the state of the mode-all run *)
@@ -2270,7 +2252,6 @@ Definition op_guard (yA : sys) (o : op) : Prop :=
   | OpBuild cfg roots =>
       cfg_cache cfg = true /\ no_overwrite (sy_src yA) /\ plain (sy_src yA) /\ deps_short (sy_src yA) /\
       build_guard (mkCfg LAll (cfg_cache cfg) (cfg_failfast cfg)) (sy_src yA) (sy_cache yA) roots (sy_world yA)
-  | OpPerturb _ st => st <> PWrongKind
   | OpDropBlob _ => False
   | _ => True
   end.
@@ -2288,16 +2269,14 @@ Lemma step_hsim yA yM o :
   hsim yA yM -> op_guard yA o ->
   hsim (step_op H yA (with_mode LAll o)) (step_op H yM (with_mode LMinimal o)).
 Proof.
-  intros (Hsrc & Hc & He & Hci & HwA & HwM & Hlog) Hg.
+  intros (Hsrc & Hc & He & Hci & Hlog) Hg.
   destruct o as [s'|ls|p st|l|p| |cfg roots]; cbn [with_mode step_op].
   - unfold hsim. cbn [sy_src sy_cache sy_world sy_log]. auto 10.
   - unfold hsim. cbn [sy_src sy_cache sy_world sy_log]. rewrite <- Hc.
     split; [exact Hsrc|]. split; [reflexivity|]. split; [exact He|].
     split; [apply (cinv_same (sy_cache yA)); [reflexivity | reflexivity | exact Hci]|]. auto.
   - unfold hsim. cbn [sy_src sy_cache sy_world sy_log w_ws w_ext]. cbn [op_guard] in Hg.
-    split; [exact Hsrc|]. split; [exact Hc|]. split; [exact He|]. split; [exact Hci|].
-    split; [eapply nowk_le; [apply wk_le_set, Hg | exact HwA]|].
-    split; [eapply nowk_le; [apply wk_le_set, Hg | exact HwM]|]. exact Hlog.
+    split; [exact Hsrc|]. split; [exact Hc|]. split; [exact He|]. split; [exact Hci|]. exact Hlog.
   - unfold hsim. cbn [sy_src sy_cache sy_world sy_log w_ws w_ext]. rewrite He. auto 10.
   - destruct Hg.
   - unfold hsim. cbn [sy_src sy_cache sy_world sy_log]. rewrite <- Hc.
@@ -2308,10 +2287,9 @@ Proof.
     destruct (build_lockstep (mkCfg LAll (cfg_cache cfg) (cfg_failfast cfg))
                 (mkCfg LMinimal (cfg_cache cfg) (cfg_failfast cfg)) (sy_src yA)
                 eq_refl eq_refl Hcc Hcc eq_refl Hno Hpl (sy_cache yA) roots (sy_world yA) (sy_world yM)
-                Hshort Hci HwA HwM He Hbg) as (B1 & B2 & B3 & B4 & B5 & B6 & B7 & B8 & _).
+                Hshort Hci He Hbg) as (B1 & B2 & B3 & B4 & B5 & B6 & _).
     unfold hsim. cbn [sy_src sy_cache sy_world sy_log].
     split; [reflexivity|]. split; [exact B4|]. split; [exact B5|]. split; [exact B6|].
-    split; [exact B7|]. split; [exact B8|].
     apply Forall2_app; [exact Hlog|]. constructor; [|constructor]. repeat split; assumption.
 Qed.
 
@@ -2326,10 +2304,8 @@ Qed.
 Lemma hsim_sys0 : hsim sys0 sys0.
 Proof.
   unfold hsim, sys0. cbn [sy_src sy_cache sy_world sy_log w_ws w_ext].
-  split; [reflexivity|]. split; [reflexivity|]. split; [reflexivity|]. split; [|split; [|split]].
+  split; [reflexivity|]. split; [reflexivity|]. split; [reflexivity|]. split.
   - split; [intros dg x Hx; discriminate Hx | intros k r def dg Hr; discriminate Hr].
-  - intros p Hp. discriminate Hp.
-  - intros p Hp. discriminate Hp.
   - constructor.
 Qed.
 
@@ -2368,11 +2344,11 @@ Proof.
   intros Hg yA yM cfgM cfgA s rA rM.
   destruct (hist_guard_app pre sys0 _ Hg) as [Hpre Hpost]. fold yA in Hpost.
   cbn [hist_guard op_guard] in Hpost. destruct Hpost as [(Hcc & Hno & Hpl & Hshort & Hbg) _].
-  pose proof (lockstep_from pre sys0 sys0 hsim_sys0 Hpre) as (Hsrc & Hc & He & Hci & HwA & HwM & _).
-  fold yA yM in Hsrc, Hc, He, Hci, HwA, HwM.
+  pose proof (lockstep_from pre sys0 sys0 hsim_sys0 Hpre) as (Hsrc & Hc & He & Hci & _).
+  fold yA yM in Hsrc, Hc, He, Hci.
   unfold rA, rM, s. rewrite <- Hsrc, <- Hc.
   apply (build_lockstep cfgA cfgM (sy_src yA) eq_refl eq_refl Hcc Hcc eq_refl Hno Hpl (sy_cache yA) roots
-           (sy_world yA) (sy_world yM) Hshort Hci HwA HwM He Hbg).
+           (sy_world yA) (sy_world yM) Hshort Hci He Hbg).
 Qed.
 
 (* ------------------------------------------------------------------ the guards, decidable *)
@@ -2440,7 +2416,6 @@ Definition op_guardb (yA : sys) (o : op) : bool :=
       cfg_cache cfg && nodupb (all_out_paths (sy_src yA)) && forallb plain_node (s_nodes (sy_src yA)) &&
       deps_shortb (sy_src yA) &&
       build_guardb (mkCfg LAll (cfg_cache cfg) (cfg_failfast cfg)) (sy_src yA) (sy_cache yA) roots (sy_world yA)
-  | OpPerturb _ st => match st with PWrongKind => false | _ => true end
   | OpDropBlob _ => false
   | _ => true
   end.
@@ -2454,7 +2429,6 @@ Fixpoint hist_guardb (yA : sys) (ops : list op) : bool :=
 Lemma op_guardb_ok yA o : op_guardb yA o = true -> op_guard yA o.
 Proof.
   destruct o as [s'|ls|p st|l|p| |cfg roots]; cbn [op_guardb op_guard]; intro Hb; try exact I.
-  - destruct st; try discriminate; intro Hx; discriminate Hx.
   - discriminate Hb.
   - apply andb_true_iff in Hb as [Hb H5]. apply andb_true_iff in Hb as [Hb H4].
     apply andb_true_iff in Hb as [Hb H3]. apply andb_true_iff in Hb as [H1 H2].
@@ -2548,15 +2522,22 @@ Theorem lockstep_refuted_cache_off :
   nth 1 (x_exec LMinimal x_ops_cache_off) [] = [].
 Proof. split; vm_compute; reflexivity. Qed.
 
-(* a directory where a file output is declared: mode all cannot restore and re-runs a, mode minimal does
-   not look *)
+(* a directory where a file output is declared (this history used to refute the lock-step: mode all could
+   not restore a's output over the directory and re-ran a, mode minimal did not look; C06-F3): the restore
+   now replaces the directory, the history meets the guard and both modes run nothing in the second build,
+   with the same statuses *)
 Definition x_ops_wrongkind (m : lmode) : list op :=
   [OpSources x_s3; OpBuild (mkCfg m true false) [2]; OpPerturb x_pa PWrongKind;
    OpBuild (mkCfg m true false) [2]].
-Theorem lockstep_refuted_wrongkind :
-  nth 1 (x_exec LAll x_ops_wrongkind) [] = [["a"]]%char /\
-  nth 1 (x_exec LMinimal x_ops_wrongkind) [] = [].
-Proof. split; vm_compute; reflexivity. Qed.
+Theorem wrongkind_in_lockstep :
+  hist_guardb hI sys0 (x_ops_wrongkind LAll) = true /\
+  nth 1 (x_exec LAll x_ops_wrongkind) [["?"]]%char = [] /\
+  nth 1 (x_exec LMinimal x_ops_wrongkind) [["?"]]%char = [] /\
+  nth 1 (x_stat LAll x_ops_wrongkind) [] = [THit; THit; THit] /\
+  nth 1 (x_stat LMinimal x_ops_wrongkind) [] = [THit; THit; THit] /\
+  (exists c, ws_get x_pa (w_ws (sy_world (run_history hI (x_ops_wrongkind LAll)))) = PFile c) /\
+  ws_get x_pa (w_ws (sy_world (run_history hI (x_ops_wrongkind LMinimal)))) = PWrongKind.
+Proof. repeat split; try (vm_compute; reflexivity). vm_compute. eexists; reflexivity. Qed.
 
 (* ================================================================== cache faults while loading: the two paths *)
 Section Faults.
